@@ -60,5 +60,5 @@ def check(res):
                 extra=lambda gr, r: ctx_contract(res, gr, r))
 
 
-PROPFILE = None
+PROPFILE = "theories/Properties/C15.v"
 replay = genprop.replay
